@@ -6,6 +6,7 @@ import (
 	"fmt"
 	"io"
 	"strings"
+	"sync/atomic"
 	"time"
 
 	"github.com/ulikunitz/xz"
@@ -48,6 +49,12 @@ func guard(f func() (int, error)) (res callRes) {
 }
 
 // withTimeout runs f in a goroutine; ok=false if it did not finish in d.
+// timeoutsSeen counts operations that did not finish: their goroutines keep spinning, so after a few of them the
+// case runners stop starting new cases (the run is a violation anyway and must end with its replay, not starve)
+var timeoutsSeen int32
+
+func tooManyTimeouts() bool { return atomic.LoadInt32(&timeoutsSeen) >= 3 }
+
 func withTimeout(d time.Duration, f func()) bool {
 	done := make(chan struct{})
 	go func() {
@@ -58,6 +65,7 @@ func withTimeout(d time.Duration, f func()) bool {
 	case <-done:
 		return true
 	case <-time.After(d):
+		atomic.AddInt32(&timeoutsSeen, 1)
 		return false
 	}
 }
